@@ -44,10 +44,10 @@ def r_C17fgh(root):
     if not conn: raise AnalysisError("ImportURI.load_models: connection to the global repository not found")
     for c in conn:
         inst += 1; extra = []
-        for g, pol in fl.guards(c):
-            for u, p_ in _split(fl.expand(g, at=g), pol):
-                if u.startswith("hasattr(") and "_tx_model_repository" in u: continue
-                extra.append((u, p_))
+        for a_, p_ in fl.atoms_at(c):
+            u = a_.replace(" ", "")
+            if u.startswith("hasattr(") and "_tx_model_repository" in u: continue
+            extra.append((u, p_))
         ob("C17", "C17.g", P, "ImportURI.load_models", ast.unparse(c)[:80], not extra)
         for u, p_ in extra:
             out.append(Finding("C17", "C17.g", P, "ImportURI.load_models", ("" if p_ else "not ") + u, "whether a model shares the metamodel's global repository also depends on %s: models for which it fails get a private repository, files they reference are re-read on every load and their elements exist twice" % u, witness="global_repository=True, model_from_str without file name, provider with a file pattern"))
@@ -57,10 +57,10 @@ def r_C17fgh(root):
     if not look: raise AnalysisError("internal_model_from_file: cache lookup not found")
     for a in look:
         inst += 1; extra = []
-        for g, pol in fm.guards(a):
-            for u, p_ in _split(g, pol):
-                if (u.startswith("hasattr(self,'_tx_model_repository')") and p_) or ("has_model(" in u and p_): continue
-                extra.append((u, p_))
+        for a_, p_ in fm.atoms_at(a):
+            u = a_.replace(" ", "")
+            if (u.startswith("hasattr(self,'_tx_model_repository')") and p_) or ("has_model(" in u and p_): continue
+            extra.append((u, p_))
         ob("C17", "C17.h", MM, "TextXMetaModel.internal_model_from_file", " ".join(ast.unparse(a).split())[:80], not extra)
         for u, p_ in extra:
             out.append(Finding("C17", "C17.h", MM, "TextXMetaModel.internal_model_from_file", ("" if p_ else "not ") + u, "the global repository's cache is consulted only when %s%s: other loads re-read a file that is already cached, so the same file exists as two different models" % ("" if p_ else "not ", u), witness="two metamodels each with a global repository; the file is loaded directly first and then imported"))
@@ -72,9 +72,10 @@ def r_C01h(root):
     if not wr: raise AnalysisError("_resolve_rule: suppressing wrapper not found")
     for c in wr:
         inst += 1; extra = []
-        for g, pol in fi.guards(c):
-            for u, p_ in _split(g, pol):
-                if u == "suppress" and p_: continue
+        for a_, p_ in fi.atoms_at(c):
+            u = a_.replace(" ", "")
+            if True:
+                if u in ("suppress", "rule.suppress") and p_: continue
                 if u.startswith("isinstance(rule,RuleCrossRef)") and p_: continue          # the outer case: we are resolving a reference
                 if "inmodel_parser.metamodel" in u and p_: continue                          # the referenced rule exists
                 if "resolving_names" in u: continue                                           # cycle report
